@@ -5,6 +5,8 @@ import Xp.Proofs.C10Path
 import Xp.Proofs.C10Total
 import Xp.Proofs.C10Apply
 import Xp.Proofs.C10Compose
+import Xp.Model.C10World
+import Xp.Proofs.C10World
 /-
 C10 property theorems: Patch & Transform rendering is total, deterministic and never applies a
 half-rendered resource. Statements only; helper lemmas are in Xp/Proofs/C10*.lean.
@@ -184,6 +186,26 @@ theorem set_then_get (root : V) (segs : List Seg) (v r : V) (hne : segs ≠ [])
       split
       · exact absurd rfl hne
       · exact getIn_setIn _ root v' r hne h
+
+/-- Field paths are identified segment by segment by the EXACT key: Paved.SetValue below `pre.k`
+leaves whatever GetValue reads through `pre.k'` untouched whenever k' ≠ k as strings – a key that
+is a string prefix of k (`tags` / `tagsExtra`), a case variant (`tags` / `Tags`), a key containing
+the separator (`a.b` next to the nested `a`, `b`) – for every object, common field prefix `pre`,
+continuation of either path and value. -/
+theorem set_leaves_sibling_paths (root : V) (pre : List String) (k k' : String) (rest qs : List Seg) (v r : V)
+    (hk : k ≠ k') (h : setValue root (pre.map Seg.field ++ Seg.field k :: rest) v = .ok r) :
+    getValue r (pre.map Seg.field ++ Seg.field k' :: qs) = getValue root (pre.map Seg.field ++ Seg.field k' :: qs) := by
+  unfold setValue at h
+  split at h
+  · cases h
+  · rename_i v' _
+    split at h
+    · cases h
+    · have hne : pre.map Seg.field ++ Seg.field k' :: qs ≠ [] := by simp
+      unfold getValue
+      split
+      · rename_i heq; exact absurd heq hne
+      · exact getIn_setIn_sibling k k' hk rest qs pre root v' r h
 
 /-! ### totality: nothing in the modelled rendering path can panic -/
 
@@ -623,6 +645,295 @@ theorem no_policy_replaces (t : Tpl) (cd : V) (hex : t.refName ≠ "")
   rw [hne]
   simp [key t.patches _ cd hnp]
 
+/-! ### the long-lived composer in a world that interferes
+
+`composeW xr tpls w` is one call of PTComposer.Compose in the world `w`: for every template
+position, what the applicator's Get answers (`got`: NotFound – also what an informer cache that
+has not seen the resource answers –, an object that may be an OLDER version than the API server
+holds, or an error of any class), what the API server holds for the name when the write arrives
+(`live`: a third party may have deleted, edited or created it in between) and the class of the
+error the write is answered with (`fault`); and whether the two writes of the composite itself
+fail. The theorems quantify over every such world. The model is per call: the harness drives ONE
+long-lived composer through sequences of composites and revisions and compares every call. -/
+
+/-- The world in which nobody interferes is the single-call model: with a fresh cache, no third
+party and the scenario's answers, the apply loop writes, sends and marks as applied exactly what
+`applyLoop` does – so every theorem about `composePT` above is the quiet special case. -/
+theorem world_quiet (xr : V) (tpls : List Tpl) (uf : Bool) (rs : List Rendered) (hlen : rs.length = tpls.length)
+    (hctl : ∀ t ∈ tpls, t.refName ≠ "" → notControllable (getMetaStr xr "uid") (t.cur.getD .null) = false) :
+    (applyLoopW (getMetaStr xr "uid") (World.quiet tpls uf).env 0 (tpls.zip rs)).writes = (applyLoop 0 (tpls.zip rs)).1 ∧
+    (applyLoopW (getMetaStr xr "uid") (World.quiet tpls uf).env 0 (tpls.zip rs)).sent = (applyLoop 0 (tpls.zip rs)).2.1 ∧
+    (applyLoopW (getMetaStr xr "uid") (World.quiet tpls uf).env 0 (tpls.zip rs)).applied = (applyLoop 0 (tpls.zip rs)).2.2.1 ∧
+    (applyLoopW (getMetaStr xr "uid") (World.quiet tpls uf).env 0 (tpls.zip rs)).aborted = (applyLoop 0 (tpls.zip rs)).2.2.2 := by
+  apply applyLoopW_quiet
+  · intro j h
+    have hj : j < tpls.length := by simp at h; omega
+    simp [World.quiet, hj]
+  · intro j h
+    have hj : j < tpls.length := by simp at h; omega
+    simp only [List.getElem_zip]
+    exact hctl tpls[j] (List.getElem_mem hj)
+
+/-- In every world – whatever the cache serves, whatever third parties do, whatever class of error
+any call is answered with – no write is addressed to the resource of a template that failed to
+render. -/
+theorem unrendered_not_applied_world (xr : V) (tpls : List Tpl) (w : World) (rs : List Rendered)
+    (hr : renderAll xr tpls = some rs) (i : Nat) (hi : i < rs.length) (hun : rs[i].rendered = false) :
+    ∀ wr ∈ (composeW xr tpls w).writes, wr.idx ≠ some i := by
+  intro wr hw hidx
+  rcases composeW_writes xr tpls w rs hr wr hw with h | h
+  · rw [h] at hidx; cases hidx
+  · obtain ⟨j, hj, h1, h2, _⟩ := applyLoopW_writes _ _ _ 0 wr h
+    rw [h1] at hidx
+    simp only [Nat.zero_add, Option.some.injEq] at hidx
+    subst hidx
+    simp only [List.getElem_zip] at h2
+    rw [h2] at hun
+    cases hun
+
+/-- … while the others still are: when the reconcile reports no error, every rendered template
+whose resource the applicator could read (an object or NotFound) has a write addressed to it –
+an Invalid answer for one resource, a cache miss, a stale read or a third party's action on
+another do not keep it from being applied. -/
+theorem rendered_are_applied_world (xr : V) (tpls : List Tpl) (w : World) (rs : List Rendered)
+    (hr : renderAll xr tpls = some rs) (hok : (composeW xr tpls w).err = "")
+    (j : Nat) (hj : j < rs.length) (hrend : rs[j].rendered = true) (hgot : ∀ c, (w.env j).got ≠ .err c) :
+    ∃ wr ∈ (composeW xr tpls w).writes, wr.idx = some j := by
+  have hlen := renderAll_length xr tpls rs hr
+  obtain ⟨hab, hsub, _⟩ := composeW_ok xr tpls w rs hr hok
+  have hjz : j < (tpls.zip rs).length := by simp [hlen]; omega
+  have hrz : ((tpls.zip rs)[j]).2.rendered = true := by simpa using hrend
+  have ho := applyLoopW_outcomes _ _ _ 0 hab j hjz hrz
+  unfold outcomeAt at ho
+  simp only [Nat.zero_add] at ho
+  have ho' : (applyW (getMetaStr xr "uid") j ((tpls.zip rs)[j]).1 (w.env j) ((tpls.zip rs)[j]).2.cd).outcome = none ∨
+      (applyW (getMetaStr xr "uid") j ((tpls.zip rs)[j]).1 (w.env j) ((tpls.zip rs)[j]).2.cd).outcome = some "invalid" := by
+    rcases ho with ho | ⟨c, ho, hc⟩
+    · exact .inl ho
+    · right
+      have : c = "invalid" := by simpa [tolerated] using hc
+      rw [ho, this]
+  obtain ⟨wr, hwr⟩ := applyW_write_of_got _ j _ (w.env j) _ hgot ho'
+  -- that write is in the loop's writes: by completeness of the loop
+  have hmem : wr ∈ (applyLoopW (getMetaStr xr "uid") w.env 0 (tpls.zip rs)).writes := by
+    exact applyLoopW_has_write _ _ _ 0 hab j hjz hrz wr (by simpa using hwr)
+  exact ⟨wr, hsub wr hmem, applyW_write _ j _ _ _ wr hwr⟩
+
+/-- No composed resource is written twice in one reconcile: there is no second attempt after a
+failed one, so nothing is ever re-sent on the strength of an earlier read. -/
+theorem one_write_per_resource_world (xr : V) (tpls : List Tpl) (w : World) (i : Nat) :
+    ((composeW xr tpls w).writes.filter fun wr => wr.idx == some i).length ≤ 1 := by
+  cases hr : renderAll xr tpls with
+  | none => simp [composeW, hr]
+  | some rs =>
+    have hnd := applyLoopW_nodup (getMetaStr xr "uid") w.env (tpls.zip rs) 0
+    have key : ∀ (l : List Write), (l.map (·.idx)).Nodup → (l.filter fun wr => wr.idx == some i).length ≤ 1 := by
+      intro l
+      induction l with
+      | nil => intro _; simp
+      | cons a as ih =>
+        intro hn
+        simp only [List.map_cons, List.nodup_cons, List.mem_map, not_exists, not_and] at hn
+        by_cases ha : a.idx = some i
+        · have hnone : (as.filter fun wr => wr.idx == some i) = [] := by
+            rw [List.filter_eq_nil_iff]
+            intro b hb hbi
+            exact hn.1 b hb (by rw [ha]; simpa using hbi)
+          simp [List.filter_cons, ha, hnone]
+        · simp only [List.filter_cons]
+          have : (a.idx == some i) = false := by simpa using ha
+          rw [this]
+          exact ih hn.2
+    have hxr : ∀ (pre post : List Write), (∀ x ∈ pre, x.idx = none) → (∀ x ∈ post, x.idx = none) → ∀ (mid : List Write),
+        ((pre ++ mid ++ post).filter fun wr => wr.idx == some i) = mid.filter fun wr => wr.idx == some i := by
+      intro pre post hpre hpost mid
+      have e1 : (pre.filter fun wr => wr.idx == some i) = [] := by
+        rw [List.filter_eq_nil_iff]; intro b hb; rw [hpre b hb]; simp
+      have e2 : (post.filter fun wr => wr.idx == some i) = [] := by
+        rw [List.filter_eq_nil_iff]; intro b hb; rw [hpost b hb]; simp
+      simp [List.filter_append, e1, e2]
+    unfold composeW
+    rw [hr]
+    dsimp only
+    split
+    · simp [List.filter_cons]
+    · split
+      · have := hxr [⟨"update", none⟩] [] (by simp) (by simp) (applyLoopW (getMetaStr xr "uid") w.env 0 (tpls.zip rs)).writes
+        simp only [List.singleton_append, List.append_nil] at this
+        rw [this]; exact key _ hnd
+      · split
+        · have := hxr [⟨"update", none⟩] [] (by simp) (by simp) (applyLoopW (getMetaStr xr "uid") w.env 0 (tpls.zip rs)).writes
+          simp only [List.singleton_append, List.append_nil] at this
+          rw [this]; exact key _ hnd
+        · split
+          all_goals
+            have := hxr [⟨"update", none⟩] [⟨"patch", none⟩] (by simp) (by simp) (applyLoopW (getMetaStr xr "uid") w.env 0 (tpls.zip rs)).writes
+            simp only [List.singleton_append, List.cons_append, List.nil_append] at this
+            simp only [List.cons_append]
+            rw [this]; exact key _ hnd
+
+/-- Purity in every world: whatever is sent for the composed resource of template j is `bodyW` of
+template j's own rendering and own merge options against the object the applicator's Get returned
+IN THIS CALL (the rendered object itself if it answered NotFound), and what the API server then
+holds is that body merged (RFC 7386) into what the server held when the write arrived. Neither
+the other templates, nor their worlds, nor the class of any error, nor anything an earlier call of
+the same composer saw enters. -/
+theorem sent_of_own_template_world (xr : V) (tpls : List Tpl) (w : World) (s : Sent)
+    (hs : s ∈ (composeW xr tpls w).sent) :
+    ∃ (h : s.idx < tpls.length) (r : Rendered), renderTpl xr tpls[s.idx] = some r ∧ r.rendered = true ∧
+      bodyW tpls[s.idx] r.cd (w.env s.idx).got = some s.body ∧ s.stored = storedW (w.env s.idx) s.body := by
+  cases hr : renderAll xr tpls with
+  | none => simp [composeW, hr] at hs
+  | some rs =>
+    have hlen := renderAll_length xr tpls rs hr
+    obtain ⟨j, hj, h1, h2, h3, h4⟩ := applyLoopW_sent _ _ _ 0 s (composeW_sent xr tpls w rs hr s hs)
+    simp only [Nat.zero_add] at h1 h3 h4
+    have hjt : j < tpls.length := by simp [hlen] at hj; omega
+    have hjr : j < rs.length := by omega
+    simp only [List.getElem_zip] at h2 h3
+    subst h1
+    exact ⟨hjt, rs[s.idx], renderAll_get xr tpls rs hr s.idx hjt hjr, h2, h3, h4⟩
+
+/-- … hence two reconciles – other templates around it, another world for them, other faults,
+another call of the same long-lived composer – in which the same template meets the same composite
+and the same answer of the applicator's Get send the same body for it. -/
+theorem apply_independent_of_world (xr : V) (tpls tpls' : List Tpl) (w w' : World) (s s' : Sent)
+    (hs : s ∈ (composeW xr tpls w).sent) (hs' : s' ∈ (composeW xr tpls' w').sent)
+    (hsame : ∀ (h : s.idx < tpls.length) (h' : s'.idx < tpls'.length), tpls[s.idx] = tpls'[s'.idx])
+    (hgot : (w.env s.idx).got = (w'.env s'.idx).got) :
+    s.body = s'.body := by
+  obtain ⟨h, r, hr, _, hb, _⟩ := sent_of_own_template_world xr tpls w s hs
+  obtain ⟨h', r', hr', _, hb', _⟩ := sent_of_own_template_world xr tpls' w' s' hs'
+  have ht := hsame h h'
+  rw [ht] at hr hb
+  rw [hr'] at hr
+  simp only [Option.some.injEq] at hr
+  subst hr
+  rw [hgot, hb'] at hb
+  simp only [Option.some.injEq] at hb
+  exact hb.symm
+
+/-- Error classes: a write addressed to the resource of template k means that the Apply of every
+rendered template before it was accepted or answered with the one tolerated class, Invalid. An
+error of ANY other class – NotFound, AlreadyExists, Conflict, Forbidden, a timeout, a transport
+error, a context deadline, NotControllable, a failing merge option –, raised by the Get, the create
+or the patch, ends the loop: none is swallowed, none is retried. -/
+theorem only_invalid_is_tolerated (xr : V) (tpls : List Tpl) (w : World) (rs : List Rendered)
+    (hr : renderAll xr tpls = some rs) (wr : Write) (k : Nat)
+    (hw : wr ∈ (composeW xr tpls w).writes) (hk : wr.idx = some k)
+    (j : Nat) (hjk : j < k) (hj : j < rs.length) (hjt : j < tpls.length) (hrend : rs[j].rendered = true) :
+    (applyW (getMetaStr xr "uid") j tpls[j] (w.env j) rs[j].cd).outcome = none ∨
+    (applyW (getMetaStr xr "uid") j tpls[j] (w.env j) rs[j].cd).outcome = some "invalid" := by
+  rcases composeW_writes xr tpls w rs hr wr hw with h | h
+  · rw [h] at hk; cases hk
+  · have hjz : j < (tpls.zip rs).length := by simp; omega
+    have := applyLoopW_prefix _ _ _ 0 wr k h (by simpa using hk) j hjz hjk (by simpa using hrend)
+    unfold outcomeAt at this
+    simp only [Nat.zero_add, List.getElem_zip] at this
+    rcases this with ho | ⟨c, ho, hc⟩
+    · exact .inl ho
+    · right
+      have : c = "invalid" := by simpa [tolerated] using hc
+      rw [ho, this]
+
+/-- A resource is reported synced only if the API server accepted its write in this reconcile. -/
+theorem synced_only_if_accepted (xr : V) (tpls : List Tpl) (w : World) (rs : List Rendered)
+    (hr : renderAll xr tpls = some rs) (j : Nat) (hj : j < rs.length) (hjt : j < tpls.length)
+    (hs : (composeW xr tpls w).synced.getD j false = true) :
+    rs[j].rendered = true ∧ (applyW (getMetaStr xr "uid") j tpls[j] (w.env j) rs[j].cd).outcome = none := by
+  have hok : (composeW xr tpls w).err = "" := by
+    unfold composeW at hs ⊢
+    rw [hr] at hs ⊢
+    dsimp only at hs ⊢
+    split
+    · rename_i h; rw [if_pos h] at hs; simp at hs
+    · rename_i h; rw [if_neg h] at hs
+      split
+      · rename_i h2; rw [if_pos h2] at hs; simp at hs
+      · rename_i h2; rw [if_neg h2] at hs
+        split
+        · rename_i h3; rw [if_pos h3] at hs; simp at hs
+        · rename_i h3; rw [if_neg h3] at hs
+          split
+          · rename_i h4; rw [if_pos h4] at hs; simp at hs
+          · rfl
+  obtain ⟨_, _, hsy⟩ := composeW_ok xr tpls w rs hr hok
+  rw [hsy] at hs
+  have hjz : j < (tpls.zip rs).length := by simp; omega
+  have := applyLoopW_applied _ _ _ 0 j hjz hs
+  unfold outcomeAt at this
+  simpa using this
+
+/-- A cache miss never turns into an unread overwrite: when the applicator's Get answers NotFound
+the only write is a CREATE of the rendered resource, and if the API server does hold a resource of
+that name (the cache had not seen it, or a third party created it meanwhile) the answer is
+AlreadyExists – an error that ends the reconcile – and the stored resource stays as it was. -/
+theorem miss_creates_and_fails_if_present (uid : String) (i : Nat) (t : Tpl) (e : Env) (cd l : V)
+    (hg : e.got = .notFound) (hl : e.live = some l) (hf : e.fault = none) :
+    (applyW uid i t e cd).write = some ⟨"create", some i⟩ ∧
+    (applyW uid i t e cd).sent = some ⟨i, cd, cd⟩ ∧
+    (applyW uid i t e cd).outcome = some "alreadyExists" ∧ tolerated "alreadyExists" = false := by
+  simp [applyW, hg, hl, hf, natural, tolerated]
+
+/-- A resource deleted by a third party between the applicator's Get and its patch: the patch is
+answered NotFound, which ends the reconcile (nothing is re-created from the stale read). -/
+theorem deleted_under_patch_fails (uid : String) (i : Nat) (t : Tpl) (e : Env) (cd cur d : V)
+    (hg : e.got = .found cur) (hc : notControllable uid cur = false) (hopt : applyOpts cur cd t.patches = .ok d)
+    (hl : e.live = none) (hf : e.fault = none) :
+    (applyW uid i t e cd).write = some ⟨"patch", some i⟩ ∧
+    (applyW uid i t e cd).outcome = some "notFound" ∧ tolerated "notFound" = false := by
+  simp [applyW, hg, hc, hopt, hl, hf, natural, tolerated]
+
+/-! ### patch sets: exact names -/
+
+/-- A template without PatchSet patches is rendered from its own patches, whatever patch sets the
+revision defines. -/
+theorem inline_plain (pss : List PatchSet) (ps : List Patch) (h : ∀ p ∈ ps, p.type ≠ "PatchSet") :
+    inlinePatches pss ps = some ps :=
+  inlinePatches_plain pss ps h
+
+/-- Patch sets are identified by their EXACT name: everything the inlining puts into a template
+is one of the template's own patches or a patch of a patch set whose name equals – as a string: no
+prefix, no case folding, no trimming – the name one of the template's PatchSet patches gives. -/
+theorem inline_by_exact_name (pss : List PatchSet) (ps qs : List Patch) (h : inlinePatches pss ps = some qs)
+    (q : Patch) (hq : q ∈ qs) :
+    (q ∈ ps ∧ q.type ≠ "PatchSet") ∨
+      ∃ s ∈ pss, q ∈ s.patches ∧ ∃ p ∈ ps, p.type = "PatchSet" ∧ p.setName = some s.name :=
+  inlinePatches_mem pss ps qs h q hq
+
+/-- A PatchSet patch that names no defined patch set – a look-alike of a defined name included –
+or names none at all is an error: nothing is rendered, nothing written. -/
+theorem inline_undefined_is_error (xr : V) (sets : List PatchSet) (tpls : List Tpl) (inl : List (List Patch)) (w : World)
+    (t : Tpl) (ht : t ∈ tpls) (p : Patch) (hp : p ∈ t.patches) (hty : p.type = "PatchSet")
+    (hund : p.setName = none ∨ ∃ n, p.setName = some n ∧ ∀ s ∈ sets, s.name ≠ n) :
+    (stepW xr sets tpls inl w).err = "inline" ∧ (stepW xr sets tpls inl w).writes = [] := by
+  have hnone : inlineAll sets (tpls.map (·.patches)) = none := by
+    unfold inlineAll
+    split
+    · -- some template's inlining fails
+      obtain ⟨pre, post, hsplit⟩ := List.append_of_mem hp
+      have hfail : inlinePatches sets t.patches = none := by
+        rw [hsplit]
+        rcases hund with hn | ⟨n, hn, hall⟩
+        · exact inlinePatches_unnamed sets p post hty hn pre
+        · exact inlinePatches_undefined sets p n post hty hn hall pre
+      have key : ∀ (l : List (List Patch)), t.patches ∈ l → inlineEach sets l = none := by
+        intro l
+        induction l with
+        | nil => intro h; cases h
+        | cons a as ih =>
+          intro h
+          unfold inlineEach
+          simp only [List.mem_cons] at h
+          rcases h with h | h
+          · rw [← h, hfail]
+          · split
+            · rfl
+            · rw [ih h]; rfl
+      exact key _ (List.mem_map.mpr ⟨t, ht, rfl⟩)
+    · rfl
+  simp [stepW, hnone]
+
 /-! ### non-vacuity: the hypotheses are satisfiable by non-trivial states -/
 
 /-- an optional patch with a transform and a missing source -/
@@ -704,5 +1015,68 @@ example :
     r.err = "apply" ∧ r.sent.length = 0 ∧ r.writes.map (·.target) = ["xr"] ∧
     -- without a toFieldPath the patch contributes no apply option: the rendered resource is sent as it is
     (composePT xr [{ t1 with patches := [pA] }] false).err = "" := by decide
+
+
+/-- The world: two templates whose resources exist. The cache serves an OLD version of the first
+(list [a, stale]) while a third party has meanwhile emptied the list in the API server; the merge
+option (appendSlice, verdict in the patch's own table) runs against what was READ, and the patch
+is merged into what the server HOLDS. The second resource's patch is answered Invalid: tolerated,
+reported unsynced. With a Conflict instead the reconcile ends there and the third template, which
+would have been created, is not touched. -/
+example :
+    let xr : V := .obj [("apiVersion", .str "example.org/v1"), ("kind", .str "XThing"),
+      ("metadata", .obj [("name", .str "my-xr"), ("uid", .str "u"), ("labels", .obj [("crossplane.io/composite", .str "my-xr")])]),
+      ("spec", .obj [("groups", .arr [.str "a"])])]
+    let base : V := .obj [("apiVersion", .str "example.org/v1"), ("kind", .str "Thing")]
+    let old : V := .obj [("apiVersion", .str "example.org/v1"), ("kind", .str "Thing"), ("metadata", .obj [("name", .str "cd-0")]),
+      ("spec", .obj [("forProvider", .obj [("groups", .arr [.str "a", .str "stale"])]), ("other", .str "o")])]
+    let now : V := .obj [("apiVersion", .str "example.org/v1"), ("kind", .str "Thing"), ("metadata", .obj [("name", .str "cd-0")]),
+      ("spec", .obj [("forProvider", .obj [("groups", .arr [])]), ("other", .str "edited")])]
+    let orc : V := .obj [("dst", .arr [.str "a", .str "stale"]), ("src", .arr [.str "a"]), ("out", .arr [.str "a", .str "stale"])]
+    let to : List Seg := [.field "spec", .field "forProvider", .field "groups"]
+    let pA : Patch := { type := "FromCompositeFieldPath", fromPath := some ⟨"spec.groups", some [.field "spec", .field "groups"]⟩,
+                        toPath := some ⟨"spec.forProvider.groups", some to⟩, combine := none, xfs := [],
+                        policy := some ⟨none, some ⟨none, some true⟩⟩, mergeOrc := [], applyOrc := [orc] }
+    let t1 : Tpl := { name := some "a", base := some base, patches := [pA], refKind := "Thing", refApiVersion := "example.org/v1",
+                      refName := "cd-0", nameGen := .keep, applyOutcome := .ok }
+    let t2 : Tpl := { t1 with name := some "a-", patches := [], refName := "cd-1" }
+    let t3 : Tpl := { t1 with name := some "A", patches := [], refName := "", refKind := "", refApiVersion := "", nameGen := .name "gen-2" }
+    let env (second : String) : Nat → Env := fun i =>
+      if i = 0 then { got := .found old, live := some now }
+      else if i = 1 then { got := .found now, live := some now, fault := some second }
+      else {}
+    let is (o : V) (p : List Seg) (want : V) : Bool := match getValue o p with
+      | .ok v => v == want
+      | .error _ => false
+    let r := composeW xr [t1, t2, t3] { env := env "invalid" }
+    let r' := composeW xr [t1, t2, t3] { env := env "conflict" }
+    r.err = "" ∧ r.writes.map (·.target) = ["xr", "0", "1", "2", "xr"] ∧ r.synced = [true, false, true] ∧
+    (r.sent.map fun s => is s.body to (.arr [.str "a", .str "stale"])) = [true, false, false] ∧
+    (r.stored.map fun o => (is o to (.arr [.str "a", .str "stale"]), is o [.field "spec", .field "other"] (.str "edited"))) = [(true, true), (false, false)] ∧
+    r'.err = "apply" ∧ r'.writes.map (·.target) = ["xr", "0", "1"] := by decide
+
+/-- A cache that has not seen the existing resource: the applicator tries to create it, the API
+server answers AlreadyExists, the reconcile ends – nothing is overwritten unread. -/
+example :
+    let xr : V := .obj [("apiVersion", .str "example.org/v1"), ("kind", .str "XThing"),
+      ("metadata", .obj [("name", .str "my-xr"), ("uid", .str "u"), ("labels", .obj [("crossplane.io/composite", .str "my-xr")])])]
+    let base : V := .obj [("apiVersion", .str "example.org/v1"), ("kind", .str "Thing")]
+    let now : V := .obj [("apiVersion", .str "example.org/v1"), ("kind", .str "Thing"), ("metadata", .obj [("name", .str "cd-0")])]
+    let t1 : Tpl := { name := some "a", base := some base, patches := [], refKind := "Thing", refApiVersion := "example.org/v1",
+                      refName := "cd-0", nameGen := .keep, applyOutcome := .ok }
+    let r := composeW xr [t1] { env := fun _ => { got := .notFound, live := some now } }
+    r.err = "apply" ∧ r.writes = [⟨"update", none⟩, ⟨"create", some 0⟩] ∧ r.stored = [] := by decide
+
+/-- Patch sets with look-alike names: `common`, `common-` and `Common` are three different sets; a
+reference to `Common-` names none of them. -/
+example :
+    let p (to : String) : Patch := { type := "FromCompositeFieldPath", fromPath := some ⟨"spec.a", some [.field "spec", .field "a"]⟩,
+                                     toPath := some ⟨to, some [.field "spec", .field to]⟩, combine := none, xfs := [], policy := none, mergeOrc := [] }
+    let ref (n : String) : Patch := { type := "PatchSet", fromPath := none, toPath := none, combine := none, xfs := [], policy := none,
+                                      mergeOrc := [], setName := some n }
+    let sets : List PatchSet := [⟨"common", [p "x"]⟩, ⟨"common-", [p "y"]⟩, ⟨"Common", [p "z"]⟩]
+    ((inlinePatches sets [p "own", ref "common-", ref "Common"]).map fun l => l.map fun q => q.toPath.map (·.raw)) =
+      some [some "own", some "y", some "z"] ∧
+    (inlinePatches sets [ref "Common-"]).isNone = true ∧ (inlinePatches sets [ref "commo"]).isNone = true := by decide
 
 end Xp.C10
